@@ -41,15 +41,19 @@ pub fn region_range(bytes: &[u8], region: u8) -> std::ops::Range<usize> {
 
 impl PkgCase {
     pub fn bytes(&self) -> Vec<u8> {
-        let p = pool();
         match self {
             PkgCase::Raw(r) => r.encode(),
-            PkgCase::Pool(i) => p[*i as usize % p.len()].bytes.clone(),
+            PkgCase::Pool(i) => {
+                let p = pool();
+                p[*i as usize % p.len()].bytes.clone()
+            }
             PkgCase::Truncated { base, at } => {
+                let p = pool();
                 let b = &p[*base as usize % p.len()].bytes;
                 b[..(*at as usize).min(b.len())].to_vec()
             }
             PkgCase::Mutated { base, region, muts } => {
+                let p = pool();
                 let mut b = p[*base as usize % p.len()].bytes.clone();
                 let r = region_range(&b, *region);
                 mutate::apply(&mut b, r, muts);
